@@ -1,5 +1,6 @@
 import CJ.Drv.Loop
 import CJ.Drv.LogTaint
+import CJ.Drv.Logger
 /-! Driver for C17: error texts, `generalizeErr`, the flow description. -/
 open CJ.Drv
 
@@ -7,4 +8,5 @@ def main : IO Unit := runDriver fun
   | "gen" :: args => LogTaint.handleGen args
   | "text" :: args => LogTaint.handleText args
   | "flow" :: args => LogTaint.handleFlow args
+  | "logger" :: args => Logger.handle args
   | _ => none
